@@ -204,8 +204,9 @@ class SourceFile:
         lo, hi = 0, len(self.toks)
         item = None
         for part in parts:
-            kw, _, rest = part.partition(" ")
-            rest = rest.strip()
+            import re as _re
+            mm = _re.match(r"(\w+)(.*)$", part, _re.S)
+            kw, rest = mm.group(1), mm.group(2).strip()
             want = _norm_header(rest) if kw == "impl" else rest
             cands = [it for it in scan_items(self.toks, lo, hi) if it.kw == kw and it.name == want]
             if not cands:
